@@ -460,7 +460,7 @@ def check_C08(tier, nproc=None):
                     c.add(Job('vH_C08', [('bytes', 'd', n, pre), ('bool', validating)], weight=4 ** n, opts=o))
             else:
                 c.add(Job('vH_C08', [('bytes', 'd', n), ('bool', validating)], weight=4 ** n, opts=o))
-        for t in TREE_TEMPLATES[:6]:
+        for t in TREE_TEMPLATES[:6] + [[b'[[[[', 1, b']]]]'], [b'{"a":{"b":{"c":{"d":', 1, b'}}}}']]:
             c.add(Job('vH_C08', [('tmpl', 'd', t), ('bool', validating)], weight=4 ** 6, opts=o))
     c.bounds = {'N': N, 'templates': [_tmplstr(t) for t in TREE_TEMPLATES[:6]],
                 'decoders': 'per token a nondeterministic choice among the admissible API calls (typed reader / SkipValue / SkipValueFast / nested Handle*Values whose handler recurses)'}
